@@ -20,7 +20,7 @@ def observe(ad, rid, times=None, detail=False, style_catalogue=None, use_cache=F
   D = ad.get("D", 2)
   doc, elems, _regions = build_doc(ad, D, style_catalogue)
   rec = _observe_doc(doc, ad, rid, times, detail, use_cache)
-  if retime_rng is None:
+  if retime_rng is None or ad.get("t0"):
     return rec
   import copy
   cands = [k for k in range(ad["n"]) if ad["kind"][k] not in ("text", "br")]
@@ -71,6 +71,7 @@ def _observe_doc(doc, ad, rid, times, detail, use_cache):
   D = ad.get("D", 2)
   # use_cache == "snap": every snapshot of this record is taken THROUGH the SignificantTimes cache (a snapshot is a snapshot
   # whichever way it is asked for); True: both ways, side by side, plus source fingerprints (C14)
+  t0 = ad.get("t0", 0)
   snap_cached = use_cache == "snap"
   use_cache = use_cache is True
   fps = []
@@ -83,7 +84,9 @@ def _observe_doc(doc, ad, rid, times, detail, use_cache):
   sigticks = []
   sigok = 1
   for s in sig:
-    tk, ok = ticks_of(Fraction(s), D)
+    if t0 and Fraction(s) < t0:
+      continue            # a significant time before the shifted timeline begins (nothing can be presented there)
+    tk, ok = ticks_of(Fraction(s) - t0, D)
     sigticks.append(tk)
     if not ok:
       sigok = 0
@@ -95,11 +98,11 @@ def _observe_doc(doc, ad, rid, times, detail, use_cache):
   obsc = []
   params = []
   for t in times:
-    isd = ISD.from_model(doc, Fraction(t, D), sig) if snap_cached else ISD.from_model(doc, Fraction(t, D))
+    isd = ISD.from_model(doc, t0 + Fraction(t, D), sig) if snap_cached else ISD.from_model(doc, t0 + Fraction(t, D))
     obs.append(project_isd(isd, detail))
     params.append(doc_params(isd))
     if use_cache:
-      obsc.append(project_isd(ISD.from_model(doc, Fraction(t, D), sig), detail))
+      obsc.append(project_isd(ISD.from_model(doc, t0 + Fraction(t, D), sig), detail))
   if use_cache:
     fps.append(fingerprint(doc))
   seq = ISD.generate_isd_sequence(doc)
@@ -108,7 +111,9 @@ def _observe_doc(doc, ad, rid, times, detail, use_cache):
   seqt = []
   seqd = []
   for (st, isd) in seq:
-    tk, ok = ticks_of(Fraction(st), D)
+    if t0 and Fraction(st) < t0:
+      continue
+    tk, ok = ticks_of(Fraction(st) - t0, D)
     seqt.append(tk if ok else -7)
     seqd.append([r["digest"] for r in project_isd(isd, False) if r["paints"]])
   rec = {"id": rid, "doc": {k: ad[k] for k in TTML_FIELDS}, "times": times, "obs": obs, "sig": sigticks, "sigok": sigok,
